@@ -1,8 +1,10 @@
 package drv
 
 import (
+	"encoding/json"
 	"fmt"
 	"math/rand"
+	"net/url"
 	"os"
 	"path/filepath"
 	"reflect"
@@ -220,6 +222,18 @@ func (q *seqRun) checkRestarts() {
 	find := func(sig, format string, args ...any) {
 		q.res.Findings = append(q.res.Findings, Finding{Props: []string{"C10"}, Sig: sig, Detail: fmt.Sprintf(format, args...), Step: -1})
 	}
+	// what the HTTP API says about a finished job (GET /job/detail) must survive the restart as well: the handler
+	// derives part of its answer from in-memory values (error values, times) that are rebuilt from the store
+	liveAPI := core.NewAPI(q.sys.R, core.NewMemOutputStore(), "0123456789abcdef-harness-secret", false)
+	detail := func(api *core.API, id string) (any, int) {
+		code, body := api.Do("GET", "/job/detail", url.Values{"id": {id}}, nil)
+		var v any
+		if code == 200 && json.Unmarshal(body, &v) != nil {
+			return nil, -1
+		}
+		return v, code
+	}
+	liveDetail := map[string]any{}
 	// the specs in force at the end are used for the restart (pipelines may have been reloaded): use the union of names
 	for n, rec := range saves {
 		if rec.Err != nil {
@@ -251,6 +265,7 @@ func (q *seqRun) checkRestarts() {
 		}
 		label := fmt.Sprintf("snapshot %d of %d", n+1, len(saves))
 		v := CheckRestartState(sys2, q.specs, ids, label, find, func(s string) { q.res.sit("C10", s) })
+		var api2 *core.API
 		for id, pj := range rec.Jobs {
 			if !(pj.Completed || pj.Canceled) {
 				continue
@@ -262,6 +277,20 @@ func (q *seqRun) checkRestarts() {
 			}
 			if diff := DiffJobReport(before, after); len(diff) > 0 {
 				find("C10:finished-job-reported-differently-after-restart", "%s: finished job %s is reported differently after the restart: %v", label, q.jn(id), diff)
+			}
+			if _, ok := liveDetail[id]; !ok {
+				liveDetail[id], _ = detail(liveAPI, id)
+			}
+			if api2 == nil {
+				api2 = core.NewAPI(sys2.R, core.NewMemOutputStore(), "0123456789abcdef-harness-secret", false)
+			}
+			if d2, code := detail(api2, id); liveDetail[id] != nil {
+				q.res.sit("C10", fmt.Sprintf("job detail over HTTP compared (canceled=%v error=%v)", before.Canceled, before.HasError))
+				if code != 200 || !reflect.DeepEqual(liveDetail[id], d2) {
+					b1, _ := json.Marshal(liveDetail[id])
+					b2, _ := json.Marshal(d2)
+					find("C10:finished-job-reported-differently-after-restart", "%s: GET /job/detail of finished job %s answers differently after the restart (status %d): before %s, after %s", label, q.jn(id), code, truncateBytes(b1, 400), truncateBytes(b2, 400))
+				}
 			}
 		}
 		sys2.Close()
